@@ -415,19 +415,19 @@ Print Assumptions c20_partial_present_nonvacuous.
 From Hoot Require Import GenLib Gen2.
 From Hoot.proofs Require Import Gen2_equiv_parser.
 Theorem c20_code_try_parse_response : forall slots input,
-  gen_try_parse_response (hp_of (fst (parse_response slots input))) (hv_version (snd (parse_response slots input)))
+  gen_try_parse_response input (hp_of (fst (parse_response slots input))) (hv_version (snd (parse_response slots input)))
     (hv_code (snd (parse_response slots input))) (hv_headers (snd (parse_response slots input)))
   = try_parse_response slots input.
 Proof. exact gen_try_parse_response_eq. Qed.
 Print Assumptions c20_code_try_parse_response.
 Theorem c20_code_try_parse_partial_response : forall slots input,
-  gen_try_parse_partial_response (hp_of (fst (parse_response slots input))) (hv_version (snd (parse_response slots input)))
+  gen_try_parse_partial_response input (hp_of (fst (parse_response slots input))) (hv_version (snd (parse_response slots input)))
     (hv_code (snd (parse_response slots input))) (hv_headers (snd (parse_response slots input)))
   = try_parse_partial_response slots input.
 Proof. exact gen_try_parse_partial_response_eq. Qed.
 Print Assumptions c20_code_try_parse_partial_response.
 Theorem c20_code_try_parse_request : forall slots input,
-  gen_try_parse_request (hp_of (fst (parse_request slots input))) (hq_version (snd (parse_request slots input)))
+  gen_try_parse_request input (hp_of (fst (parse_request slots input))) (hq_version (snd (parse_request slots input)))
     (hq_method (snd (parse_request slots input))) (hq_headers (snd (parse_request slots input)))
   = try_parse_request slots input.
 Proof. exact gen_try_parse_request_eq. Qed.
